@@ -8,6 +8,7 @@ package main
 
 import (
 	"fmt"
+	"reflect"
 
 	"github.com/mlange-42/arche/ecs"
 	"github.com/mlange-42/arche/generic"
@@ -313,9 +314,188 @@ func genericValue() error {
 	return nil
 }
 
+type GLateX struct{ V int64 }
+type GLateY struct{ V int64 }
+type GLateZ struct{ V int64 }
+
+// genericLate: a generic filter that names component types the world has not seen yet, used
+// (or registered) before those types are registered by anyone else, selects what the core
+// filter over the IDs of the same types selects — also later, when entities carry them.
+func genericLate() error {
+	for variant := 0; variant < 3; variant++ {
+		w := ecs.NewWorld()
+		a0 := ecs.ComponentID[GA0](&w)
+		for i := 0; i < 3; i++ {
+			w.NewEntity(a0)
+		}
+		f := generic.NewFilter1[GA0]().Without(generic.T[GLateX]()).Optional(generic.T[GLateZ]())
+		fw := generic.NewFilter1[GA0]().With(generic.T[GLateY]())
+		count := func(fl *generic.Filter1[GA0]) int {
+			q := fl.Query(&w)
+			n := q.Count()
+			q.Close()
+			return n
+		}
+		countCore := func(fl ecs.Filter) int {
+			q := w.Query(fl)
+			n := q.Count()
+			q.Close()
+			return n
+		}
+		switch variant {
+		case 0: // used once before the types exist elsewhere
+			if n := count(f); n != 3 {
+				return fmt.Errorf("late types: filter Without(unknown type) selects %d of 3 entities", n)
+			}
+			if n := count(fw); n != 0 {
+				return fmt.Errorf("late types: filter With(unknown type) selects %d entities, expected none", n)
+			}
+		case 1: // registered before the types exist elsewhere
+			f.Register(&w)
+			fw.Register(&w)
+		default: // only obtained as a filter value
+			_ = f.Filter(&w)
+			_ = fw.Filter(&w)
+		}
+		x, y := ecs.ComponentID[GLateX](&w), ecs.ComponentID[GLateY](&w)
+		w.NewEntity(a0, x)
+		w.NewEntity(a0, y)
+		w.NewEntity(a0, x, y)
+		w.NewEntity(a0, ecs.ComponentID[GLateZ](&w))
+		coreF := ecs.All(a0).Without(x)
+		if got, want := count(f), countCore(&coreF); got != want {
+			return fmt.Errorf("late types (variant %d): generic filter Without(X), built before X was registered, selects %d entities; All(a).Without(x) selects %d", variant, got, want)
+		}
+		if got, want := count(fw), countCore(ecs.All(a0, y)); got != want {
+			return fmt.Errorf("late types (variant %d): generic filter With(Y), built before Y was registered, selects %d entities; All(a, y) selects %d", variant, got, want)
+		}
+		fresh := generic.NewFilter1[GA0]().Without(generic.T[GLateX]()).Optional(generic.T[GLateZ]())
+		if got, want := count(f), count(fresh); got != want {
+			return fmt.Errorf("late types (variant %d): a filter used before differs from a freshly built filter with the same configuration: %d vs %d", variant, got, want)
+		}
+		// a mapper for a type first seen through the mapper
+		m := generic.NewMap1[GLateZ](&w)
+		e := m.New()
+		if !w.Has(e, ecs.ComponentID[GLateZ](&w)) {
+			return fmt.Errorf("late types: Map1.New entity lacks the mapper's component")
+		}
+	}
+	return nil
+}
+
+type gShapeIface interface{ M() int }
+type gShapeNamed int32
+type gShapeGen[T any] struct{ V T }
+type gShapeEmpty struct{}
+type gShapeFunc func(int) int
+
+// shapeCheck: the generic entry points and the reflect.Type entry points agree for one type
+func shapeCheck[T any](w *ecs.World, seen map[ecs.ID]reflect.Type, seenRes map[ecs.ResID]reflect.Type) (err error) {
+	tp := reflect.TypeOf((*T)(nil)).Elem()
+	defer func() {
+		if x := recover(); x != nil {
+			err = fmt.Errorf("type %v: panic: %v", tp, x)
+		}
+	}()
+	if generic.T[T]() != tp {
+		return fmt.Errorf("generic.T[%v]() is %v", tp, generic.T[T]())
+	}
+	before := len(ecs.ComponentIDs(w))
+	id := ecs.ComponentID[T](w)
+	if len(ecs.ComponentIDs(w)) != before+1 {
+		return fmt.Errorf("type %v: ComponentID did not register exactly one type (%d -> %d ids)", tp, before, len(ecs.ComponentIDs(w)))
+	}
+	if id2 := ecs.TypeID(w, tp); id2 != id {
+		return fmt.Errorf("type %v: ComponentID[T] = %v but TypeID(reflect type) = %v", tp, id, id2)
+	}
+	if id3 := ecs.ComponentID[T](w); id3 != id || len(ecs.ComponentIDs(w)) != before+1 {
+		return fmt.Errorf("type %v: second ComponentID[T] gives %v, first gave %v", tp, id3, id)
+	}
+	if other, dup := seen[id]; dup {
+		return fmt.Errorf("types %v and %v share component id %v", other, tp, id)
+	}
+	seen[id] = tp
+	if info, ok := ecs.ComponentInfo(w, id); !ok || info.Type != tp || info.ID != id {
+		return fmt.Errorf("type %v: ComponentInfo reports %v (ok=%v)", tp, info.Type, ok)
+	}
+	if mp := generic.NewMap[T](w); mp.ID() != id {
+		return fmt.Errorf("type %v: Map[T].ID differs from ComponentID[T]", tp)
+	}
+	rbefore := len(ecs.ResourceIDs(w))
+	rid := ecs.ResourceID[T](w)
+	if rid2 := ecs.ResourceTypeID(w, tp); rid2 != rid || len(ecs.ResourceIDs(w)) != rbefore+1 {
+		return fmt.Errorf("type %v: ResourceID[T] = %v but ResourceTypeID(reflect type) = %v (%d -> %d ids)", tp, rid, rid2, rbefore, len(ecs.ResourceIDs(w)))
+	}
+	if other, dup := seenRes[rid]; dup {
+		return fmt.Errorf("types %v and %v share resource id %v", other, tp, rid)
+	}
+	seenRes[rid] = tp
+	if rt, ok := ecs.ResourceType(w, rid); !ok || rt != tp {
+		return fmt.Errorf("type %v: ResourceType reports %v (ok=%v)", tp, rt, ok)
+	}
+	if rs := generic.NewResource[T](w); rs.ID() != rid {
+		return fmt.Errorf("type %v: Resource[T].ID differs from ResourceID[T]", tp)
+	}
+	return nil
+}
+
+// genericShapes (C16): every kind of Go type maps to one id through every entry point
+func genericShapes() error {
+	w := ecs.NewWorld()
+	seen := map[ecs.ID]reflect.Type{}
+	seenRes := map[ecs.ResID]reflect.Type{}
+	checks := []func() error{
+		func() error { return shapeCheck[GA0](&w, seen, seenRes) },
+		func() error { return shapeCheck[gShapeEmpty](&w, seen, seenRes) },
+		func() error { return shapeCheck[struct{}](&w, seen, seenRes) },
+		func() error { return shapeCheck[gShapeNamed](&w, seen, seenRes) },
+		func() error { return shapeCheck[int32](&w, seen, seenRes) },
+		func() error { return shapeCheck[string](&w, seen, seenRes) },
+		func() error { return shapeCheck[[3]uint16](&w, seen, seenRes) },
+		func() error { return shapeCheck[[]byte](&w, seen, seenRes) },
+		func() error { return shapeCheck[map[string]int](&w, seen, seenRes) },
+		func() error { return shapeCheck[*GA0](&w, seen, seenRes) },
+		func() error { return shapeCheck[**GA0](&w, seen, seenRes) },
+		func() error { return shapeCheck[gShapeIface](&w, seen, seenRes) },
+		func() error { return shapeCheck[error](&w, seen, seenRes) },
+		func() error { return shapeCheck[any](&w, seen, seenRes) },
+		func() error { return shapeCheck[gShapeFunc](&w, seen, seenRes) },
+		func() error { return shapeCheck[func()](&w, seen, seenRes) },
+		func() error { return shapeCheck[chan int](&w, seen, seenRes) },
+		func() error { return shapeCheck[gShapeGen[int]](&w, seen, seenRes) },
+		func() error { return shapeCheck[gShapeGen[string]](&w, seen, seenRes) },
+		func() error { return shapeCheck[gShapeGen[gShapeGen[int]]](&w, seen, seenRes) },
+		func() error { return shapeCheck[struct{ A int }](&w, seen, seenRes) },
+		func() error { return shapeCheck[struct{ B int }](&w, seen, seenRes) },
+		func() error { return shapeCheck[GRel](&w, seen, seenRes) },
+		func() error { return shapeCheck[ecs.Relation](&w, seen, seenRes) },
+		func() error { return shapeCheck[ecs.Entity](&w, seen, seenRes) },
+		func() error { return shapeCheck[unsafePtrHolder](&w, seen, seenRes) },
+	}
+	for _, c := range checks {
+		if err := c(); err != nil {
+			return err
+		}
+	}
+	// an entity can carry all of them
+	ids := ecs.ComponentIDs(&w)
+	e := w.NewEntity(ids...)
+	for _, id := range ids {
+		if !w.Has(e, id) {
+			return fmt.Errorf("entity created with all shapes lacks %v", id)
+		}
+	}
+	return nil
+}
+
+type unsafePtrHolder struct{ P uintptr }
+
 // genericArmAll runs every arity; returns the number of steps executed.
 func genericArmAll(seed uint64, steps int) (int, error) {
 	if err := genericFixed(); err != nil {
+		return 0, err
+	}
+	if err := genericLate(); err != nil {
 		return 0, err
 	}
 	if err := genericRelation(); err != nil {
